@@ -455,6 +455,9 @@ def judgeIts (prop : String) (st : DState) (fields : List String) (impl : Option
              else "VIOLATION:gas-value-stranded-callback-failed-unexpectedly")
           else if implOk impl && !same then "VIOLATION:gas-callback-effects-differ" else "ok"
         | .itsDeployRemote _ _ _ _ _ gas _, some _ =>
+          if prop == "C20" then
+            (if its.paused && implOk impl && !modelOk then "VIOLATION:remote-deployment-completed-while-paused" else "ok")
+          else
           if prop != "C17" then "ok" else
           if !implOk impl && gas > 0 then
             (if !modelOk then "VIOLATION:gas-value-stranded-remote-deploy-callback-failed"
